@@ -203,6 +203,8 @@ def run(ctx):
         def env_of(t):
             if t[0] == "call" and t[1].split("::")[-1] in ("is_some", "is_none") and t[2] and mentions(t[2][0], "read_dir"):
                 return nonempty == (t[1].split("::")[-1] == "is_some")
+            if t[0] == "call" and t[1].split("::")[-1] == "next" and mentions(t, "read_dir"):
+                return "Some" if nonempty else "None"          # `match dir.read_dir()?.next() { Some(_) => .., None => .. }`
             return None
         return env_of
     _o1, vis_fresh = _xu(v, _dir_env(False), limit=20000)
